@@ -612,7 +612,17 @@ def _run_bc(plan):
                     res.probe("close_connected_with_%s" % ("requests" if model.table else "idle"))
                 model.op_close()
             state["n_attempts_at_close"] = len(net.attempts)
-            d = bc.close()
+            try:
+                d = bc.close()
+            except HarnessError:
+                raise
+            except Exception as e:
+                # close() itself blew up (e.g. on a request that a failure handler had just cancelled): whatever it had not
+                # failed yet stays pending for good
+                res.violate("C10", "C10:close-raised:%s" % type(e).__name__, "close() raised %r" % (e,), sim)
+                res.violate("C06", "C06:close-raised:%s" % type(e).__name__, "close() raised %r; requests still in the table: %r" % (e, list(getattr(bc, "requests", {}))[:6]), sim)
+                state["aborted"] = True
+                return
             model.advance(only="closepop")
             state["close_w"] = watch(d, "close", sim)
         else:
